@@ -371,6 +371,7 @@ pub async fn run_case(c: &Case, port_base: u16) -> Outcome {
     a.start();
     let send_errors = Arc::new(Mutex::new(Vec::<String>::new()));
     let mut started0 = [false, false];
+    let mut early_done = false;
     let mut eager_started = false;
     let mut phase1_started = false;
     let mut closes_done = c.closes.is_empty();
@@ -410,7 +411,17 @@ pub async fn run_case(c: &Case, port_base: u16) -> Outcome {
         for side in 0..2 { if !started0[side] && st[side] == SctpState::Connected { started0[side] = true; to_start.push((side, 0)); } }
         // eager tasks (id ≥ 200) do not wait for anything: they call send from the first moment on
         if !eager_started { eager_started = true; to_start.push((0, 200)); to_start.push((1, 200)); }
-        if has_phase1 && !phase1_started && phase0_quiet { phase1_started = true; last_activity = Instant::now(); to_start.push((0, 1)); to_start.push((1, 1)); }
+        // closes marked early (side + 2) are issued at the phase boundary, before the phase-1 traffic
+        let early_pending = has_phase1 && !phase1_started && phase0_quiet && !early_done && c.closes.iter().any(|(s, _)| *s >= 2);
+        if early_pending {
+            early_done = true;
+            for (side, id) in c.closes.iter().filter(|(s, _)| *s >= 2) {
+                let ep = if *side % 2 == 0 { &a } else { &b };
+                if let Err(e) = ep.sctp.close_data_channel(*id).await { send_errors.lock().push(format!("close ch{id}: {e}")); }
+            }
+            last_activity = Instant::now();
+        }
+        if has_phase1 && !phase1_started && phase0_quiet && !early_pending { phase1_started = true; last_activity = Instant::now(); to_start.push((0, 1)); to_start.push((1, 1)); }
         for (side, ph) in to_start {
             let eager = ph == 200;
             let ph = if eager { 0 } else { ph };
@@ -474,7 +485,7 @@ pub async fn run_case(c: &Case, port_base: u16) -> Outcome {
         let done = senders_done && all_acked && link.quiet() && idle > c.settle;
         if done && !closes_done {
             closes_done = true;
-            for (side, id) in &c.closes {
+            for (side, id) in c.closes.iter().filter(|(s, _)| *s < 2) {
                 let ep = if *side == 0 { &a } else { &b };
                 if let Err(e) = ep.sctp.close_data_channel(*id).await { send_errors.lock().push(format!("close ch{id}: {e}")); }
             }
